@@ -127,7 +127,7 @@ pub fn run(ctx: &Ctx) -> (Level, Report) {
 	(
 		Level {
 			level: "exploration",
-			rule: "zoo: every MaxEncodedLen/ConstEncodedLen type x values biased to the longest encodings (integers at max, compacts at the top of \
+			rule: "zoo: every MaxEncodedLen type (whether it is also marked ConstEncodedLen is observed by a compile-time probe, not taken from a list) x values biased to the longest encodings (integers at max, compacts at the top of \
 their widest class, Some, the longer Result side, the longest variant) plus unbiased values: len <= max_encoded_len(), == for ConstEncodedLen, \
 declared max >= the format's maximum for the type; every type with encoded_fixed_size() = Some(n): every value encodes to n bytes. programs: \
 generated derive(MaxEncodedLen) definitions with compact / encoded_as / skip fields, skipped variants and generic instantiations, compiled \
